@@ -1209,3 +1209,33 @@ Proof.
     as [b ->].
   eexists. reflexivity.
 Qed.
+
+(* ------------------------------------------------------------------ *)
+(* summary statements *)
+
+(* the abstract graph of dot_format(): header, then nodes / clusters nested as the (sorted) tree,
+   and one edge per requirement; ids are the numbers of _set_sched_ids, zero-padded *)
+Theorem dot_structure rq inf t g : dot_ast rq inf t = Ok g ->
+  exists ids nxt b,
+    set_ids rq t = Some (ids, nxt) /\
+    let idf := fun j => fmt (id_width (tree_size t - 1)) (assoc_id ids j) in
+    gname g = v_name /\ gbody g = header [] ++ b /\ body_spec rq inf idf t b.
+Proof.
+  intros H. unfold dot_ast in H. destruct (set_ids rq t) as [[ids nxt]|] eqn:Es; [|discriminate].
+  destruct (body rq inf (fun j => fmt (id_width (tree_size t - 1)) (assoc_id ids j)) t) as [b|] eqn:Eb;
+    [|discriminate].
+  inversion H; subst g. exists ids, nxt, b. split; [reflexivity|]. cbn zeta. cbn [gname gbody].
+  split; [reflexivity|]. split; [reflexivity|]. apply body_structure. exact Eb.
+Qed.
+
+(* acyclic + closed + outside the D7 class + no backslash in labels: dot_format() returns bytes
+   that parse back to the abstract graph of the tree *)
+Theorem dot_roundtrip_full rq inf t :
+  tree_wf rq t -> closed_tree rq t -> linked_solid rq t -> labels_ok inf ->
+  exists g, dot_ast rq inf t = Ok g /\
+            dot_bytes rq inf t = Ok (render (print_graph g)) /\
+            parse (render (print_graph g)) = Some g.
+Proof.
+  intros Hwf Hcl Hls Hlab. destruct (dot_total rq inf t Hwf Hcl Hls) as [g Hg].
+  exists g. split; [exact Hg|]. apply dot_roundtrip; assumption.
+Qed.
